@@ -39,6 +39,8 @@ type Run struct {
 	// per-run engine options
 	Debug  bool   `json:"debug"`
 	Writer string `json:"writer"`
+	// DisableSandbox: Engine.DisableSandbox() is called after the policy was installed
+	DisableSandbox bool `json:"disablesandbox"`
 	// Verbose: (with Debug) the process-wide debug level is the most talkative one
 	Verbose bool `json:"verbose"`
 	// per-run context (overrides the case's)
@@ -513,6 +515,9 @@ func renderRun(c *Case, r *Run, ctx map[string]interface{}) (o obs) {
 		pol := makePolicy(cfg1)
 		installedPolicy, _ = pol.(*twig.DefaultSecurityPolicy)
 		e.EnableSandbox(pol)
+	}
+	if r.DisableSandbox {
+		e.DisableSandbox()
 	}
 	if c.Cfg.Debug || r.Debug {
 		defer twig.SetDebugLevel(twig.DebugOff) // the debug level is process-wide
